@@ -352,8 +352,8 @@ class Engine:
             return None, None
         return m, self.real(m)
 
-    def _op_add_node(self, parent_ref, src_tree, src_ref, deep, before):
-        """parent.add(existing_node, deep=, before=)"""
+    def _op_add_node(self, parent_ref, src_tree, src_ref, deep, before, kind=None):
+        """parent.add(existing_node, deep=, before=[, kind=])"""
         route = "add_node" + (":cross-tree" if src_tree == 1 else "") + (":deep" if deep else "")
         mt = self.model
         parent = self.parent_of(parent_ref)
@@ -365,6 +365,8 @@ class Engine:
         kw = {}
         if deep is not None:
             kw["deep"] = deep
+        if kind is not None and self.typed:
+            kw["kind"] = kind
         call = lambda: rparent.add(rsrc, before=rb, **kw)  # noqa: E731
         if deep and src_tree == 0 and mt.is_inside(parent, src):
             return Plan("unspecified", route + ":deep-copy-into-own-branch")
@@ -377,7 +379,8 @@ class Engine:
         if collide:
             return Plan("refuse", route + ":collision", call=call, exc=E_UNIQUE)
         def apply():
-            n = mt.copy_branch(src, bool(deep), kind_override=self._top_copy_kind(src))  # same data, data_id and kind
+            ko = kind if (kind is not None and self.typed) else self._top_copy_kind(src)
+            n = mt.copy_branch(src, bool(deep), kind_override=ko)  # same data, data_id and kind (or the explicit kind)
             mt.insert(parent, n, res[1])
             return n
 
